@@ -586,6 +586,52 @@ def gen_dimension_mix(rng):
     return ('MS', [('PG', [ring(i)]) for i in range(n)])
 
 
+def gen_empty_positions(rng):
+    """one Multi* / collection (possibly nested in a collection) of a single dimensionality with EMPTY members at chosen positions:
+    first, middle, last, several, all"""
+    d = rng.choice([0, 1, 1, 2, 3, 3])
+    fin = lambda: bits_of(round(rng.uniform(-500, 500), rng.randint(0, 3)))
+    co = lambda: (fin(), fin(), fin(), fin())
+
+    def closed(n):
+        cs = [co() for _ in range(n)]
+        return cs + [cs[0]]
+    n = rng.choice([2, 3, 3, 4, 5])
+    pat = rng.choice(['first', 'first', 'middle', 'last', 'several', 'first+last', 'all'])
+    empty = [False] * n
+    if pat in ('first', 'first+last'): empty[0] = True
+    if pat in ('last', 'first+last'): empty[-1] = True
+    if pat == 'middle': empty[n // 2 if n > 2 else 0] = True
+    if pat == 'several': empty = [rng.random() < 0.6 for _ in range(n)]; empty[rng.randrange(n)] = True
+    if pat == 'all': empty = [True] * n
+    kind = rng.choice(['MP', 'MP', 'ML', 'ML', 'MG', 'MC', 'MS', 'GC', 'GC', 'PGh', 'CPh'])
+
+    def member(k, e):
+        if k == 'P': return ('P', d, [] if e else [co()])
+        if k == 'L': return ('L', d, [] if e else [co() for _ in range(rng.choice([2, 3]))])
+        if k == 'C': return ('C', d, [] if e else [co() for _ in range(3)])
+        if k == 'R': return ('R', d, [] if e else closed(3))
+        if k == 'PG': return ('PG', [('R', d, [] if e else closed(3))])
+        if k == 'CP': return ('CP', [('R', d, [])] if e else [('L', d, closed(3))])
+        if k == 'CC':
+            if e: return ('CC', [])
+            a, b, c = co(), co(), co()
+            return ('CC', [('L', d, [a, b]), ('C', d, [b, co(), c])])
+        if k == 'MPn': return ('MP', [('P', d, [] if (e or i == 0) else [co()]) for i in range(2)])
+        raise ValueError(k)
+    if kind == 'MP': t = ('MP', [member('P', e) for e in empty])
+    elif kind == 'ML': t = ('ML', [member('L', e) for e in empty])
+    elif kind == 'MG': t = ('MG', [member('PG', e) for e in empty])
+    elif kind == 'MC': t = ('MC', [member(rng.choice(['L', 'L', 'C', 'CC']), e) for e in empty])
+    elif kind == 'MS': t = ('MS', [member(rng.choice(['PG', 'PG', 'CP']), e) for e in empty])
+    elif kind == 'GC': t = ('GC', [member(rng.choice(['P', 'L', 'R', 'PG', 'MPn', 'C']), e) for e in empty])
+    elif kind == 'PGh': t = ('PG', [('R', d, closed(3))] + [member('R', e) for e in empty[1:]])
+    else: t = ('CP', [('L', d, closed(3))] + [('L', d, [] if e else closed(3)) for e in empty[1:]])
+    if rng.random() < 0.3:
+        t = ('GC', [t] if rng.random() < 0.5 else [t, ('P', d, [co()])][::rng.choice([1, -1])])
+    return t, pat
+
+
 # ---------------------------------------------------------------------------------------------- shrinking of trees
 def shrink_candidates(t):
     """smaller variants of a tree (one step)"""
@@ -787,6 +833,20 @@ def run(ctx):
             key = 'trim%d old3d%d dim%d' % (c[0], c[3], c[2]); dist['cfg'][key] = dist['cfg'].get(key, 0) + 1
         ind = rng.choice([-1, -1, 2])
         glines.append('J %d %s' % (ind, words)); gcases.append(('J', ind, t)); dist['json'] += 1
+    # EMPTY members at every position of every Multi* / collection type, one dimensionality, every old-3D x output-dimension setting
+    for i in range(45 if quick else 800):
+        t, pat = gen_empty_positions(rng)
+        dist.setdefault('empty_positions', {}); dist['empty_positions'][pat] = dist['empty_positions'].get(pat, 0) + 1
+        words = ' '.join(tree_words(t))
+        for old3 in (0, 1):
+            for dim in (2, 3, 4):
+                if dim == 2 and rng.random() < 0.5:
+                    continue
+                c = (rng.choice([0, 1, 1]), rng.choice(ALLP), dim, old3)
+                glines.append('G %d %d %d %d %s' % (c + (words,))); gcases.append(('G', c, t))
+                key = 'trim%d old3d%d dim%d' % (c[0], c[3], c[2]); dist['cfg'][key] = dist['cfg'].get(key, 0) + 1
+        if not t_has_curve_family(t) and rng.random() < 0.5:
+            glines.append('J -1 ' + words); gcases.append(('J', -1, t)); dist['json'] += 1
     for l in corpus:
         if l.startswith(('G ', 'J ')):
             w = l.split()
